@@ -2,6 +2,8 @@ package props
 
 import (
 	"bytes"
+	"crypto/sha256"
+	"encoding/binary"
 	"fmt"
 	"math/big"
 	"strings"
@@ -167,7 +169,38 @@ func deriveRejected(s *Sess, r SOp) ([]byte, string) {
 			kind = "data-replay"
 		}
 	} else {
-		switch r.X % 7 {
+		switch r.X % 8 {
+		case 7:
+			// one length prefix of the message's DATA/MPI fields altered (the bytes behind it stay where they are)
+			var offs []int // offsets of the 4-byte length prefixes
+			switch h.Type {
+			case ref.TypeDHCommit:
+				if len(raw) >= body+4 {
+					l0 := int(binary.BigEndian.Uint32(raw[body:]))
+					offs = append(offs, body)
+					if body+4+l0+4 <= len(raw) {
+						offs = append(offs, body+4+l0)
+					}
+				}
+			case ref.TypeDHKey, ref.TypeSignature:
+				offs = append(offs, body)
+			case ref.TypeRevealSig:
+				if len(raw) >= body+4 {
+					l0 := int(binary.BigEndian.Uint32(raw[body:]))
+					offs = append(offs, body)
+					if body+4+l0+4 <= len(raw) {
+						offs = append(offs, body+4+l0)
+					}
+				}
+			}
+			if len(offs) == 0 {
+				return nil, ""
+			}
+			off := offs[r.L%len(offs)]
+			n := binary.BigEndian.Uint32(raw[off:])
+			nv := []uint32{0, n - 1, n + 1, n ^ 0x20, n ^ 0x01, n + 4}[r.F%6]
+			copy(out[off:], ref.PutU32(nil, nv))
+			kind = "ake-length-prefix"
 		case 6:
 			// an out-of-range D-H value in place of the genuine one
 			if h.Type != ref.TypeDHKey {
@@ -218,6 +251,10 @@ func runTwin(sc *TwinScript) *sim.Outcome {
 	at := sc.At % (len(sc.Ops) + 1)
 	kind := ""
 	delivered := [2]int{}
+	exact, exactOps := false, 0
+	readsEq := func() bool {
+		return worlds[0].W.P[0].R.Reads() == worlds[1].W.P[0].R.Reads() && worlds[0].W.P[1].R.Reads() == worlds[1].W.P[1].R.Reads()
+	}
 	compare := func(from [2]int, what string) bool {
 		c0, c1 := worlds[0].W.Calls[from[0]:], worlds[1].W.Calls[from[1]:]
 		n := len(c0)
@@ -226,6 +263,13 @@ func runTwin(sc *TwinScript) *sim.Outcome {
 		}
 		for i := 0; i < n; i++ {
 			a, b := callObs(worlds[0].W, c0[i], sc.Cfg.V == 3), callObs(worlds[1].W, c1[i], sc.Cfg.V == 3)
+			if exact {
+				// both worlds have consumed the same randomness before and after this step, so every secret either
+				// world holds is the same number: the wire output must agree byte for byte (ciphertext, MACs and
+				// the MAC keys given up included)
+				a += fmt.Sprintf(" wire=%x", sha256.Sum256(bytes.Join(c0[i].Out, []byte{0xff})))
+				b += fmt.Sprintf(" wire=%x", sha256.Sum256(bytes.Join(c1[i].Out, []byte{0xff})))
+			}
 			if a != b {
 				o.Fail("C06/"+kind, "after a rejected input (%s) %s diverges from the run in which the input never arrived:\n  without: %s\n  with:    %s", kind, what, clip(a), clip(b))
 				return false
@@ -288,6 +332,7 @@ func runTwin(sc *TwinScript) *sim.Outcome {
 		}
 		from := [2]int{len(worlds[0].W.Calls), len(worlds[1].W.Calls)}
 		op := sc.Ops[i]
+		eqBefore := readsEq()
 		for _, s := range worlds {
 			if op.K == "sess" {
 				// refresh without the compound op's own clock ageing (ageing is an explicit op here)
@@ -296,6 +341,10 @@ func runTwin(sc *TwinScript) *sim.Outcome {
 			} else {
 				s.Exec(op)
 			}
+		}
+		exact = eqBefore && readsEq()
+		if exact && i >= at {
+			exactOps++
 		}
 		if !compare(from, fmt.Sprintf("op #%d (%s)", i, op.K)) {
 			return o
@@ -310,10 +359,14 @@ func runTwin(sc *TwinScript) *sim.Outcome {
 			s.Exec(SOp{K: "flush"})
 		}
 	}
+	exact = false
 	if !compare(from, "the final exchange of texts") {
 		return o
 	}
 	o.Class(kind)
+	if exactOps > 0 {
+		o.Class("wire-compared-byte-for-byte")
+	}
 	o.Class("state-" + stateWas)
 	o.NonTrivial = stateWas != "not-encrypted" && delivered[0] >= 2 && delivered[1] >= 2
 	return o
@@ -326,7 +379,40 @@ func clip(s string) string {
 	return s
 }
 
-func init() { reg("C06twin", runTwin); reg("C06akestates", runTwin) }
+func init() { reg("C06twin", runTwin); reg("C06akestates", runTwin); reg("C06firstuse", runTwin) }
+
+// TestProp_C06_FirstUse: the rejected input is a damaged copy of the message in flight and reaches the receiver
+// before the genuine one, so it is the first thing ever to name its key pair (right after the key exchange, or
+// after k rounds of rotations); the conversation then goes on long enough for that pair to be retired and its
+// keys given up. Every byte either side emits afterwards must be what it would have been anyway.
+func TestProp_C06_FirstUse(t *testing.T) {
+	si, sn := sim.Shard()
+	idx := 0
+	for _, v := range []int{3, 2} {
+		for k := 0; k < 4; k++ {
+			for dir := 0; dir < 2; dir++ {
+				for _, x := range []int{0, 1, 4, 5, 8} { // bitflip, counter, MAC, truncated, next D-H value
+					for _, l := range []int{1, 30, 77} {
+						idx++
+						if idx%sn != si {
+							continue
+						}
+						var ops []SOp
+						for i := 0; i < k; i++ {
+							ops = append(ops, SOp{K: "pp", W: i & 1, I: 0, L: 9})
+						}
+						ops = append(ops, SOp{K: "send", W: dir, L: 10})
+						at := len(ops)
+						ops = append(ops, SOp{K: "flush"}, SOp{K: "pp", W: 1 - dir, I: 2, L: 9}, SOp{K: "pp", W: dir, I: 2, L: 9}, SOp{K: "send", W: 1 - dir, L: 5}, SOp{K: "send", W: dir, L: 5}, SOp{K: "flush"})
+						sc := &TwinScript{Cfg: SessCfg{V: v, SeedA: 1720, SeedB: 1821, KeyA: 0, KeyB: 3, Starter: k & 1}, Ops: ops, At: at, R: SOp{W: 1 - dir, I: 0, X: x, L: l, F: l % 4}}
+						sim.Judge(t, "C06firstuse", sc)
+					}
+				}
+			}
+		}
+	}
+	sim.MarkCompleted("C06firstuse", true)
+}
 
 func TestProp_C06_Twin(t *testing.T) {
 	defer sim.MarkCompleted("C06twin", false)
@@ -374,17 +460,31 @@ func TestProp_C06_AKEStates(t *testing.T) {
 				at := len(ops)
 				ops = append(ops, SOp{K: "flush"}, SOp{K: "pp", W: 0, I: 1, L: 5})
 				for rcv := 0; rcv < 2; rcv++ {
-					for x := 0; x < 7; x++ {
+					for x := 0; x < 8; x++ {
 						for _, src := range []int{0, 2, 5} {
-							for _, l := range []int{0, 3, 40, 200} {
-								if !sim.Thorough() && (l == 3 || src == 5) {
+							ls := []int{0, 3, 40, 200}
+							if x == 7 {
+								ls = []int{0, 1, 2, 3, 4, 5, 6, 7, 8, 9, 10, 11} // field (l/6) x alteration (l%6)
+								if !sim.Thorough() {
+									ls = []int{0, 2, 6, 8}
+								}
+							}
+							for _, l := range ls {
+								if !sim.Thorough() && x != 7 && (l == 3 || src == 5) {
+									continue
+								}
+								if !sim.Thorough() && x == 7 && src == 5 {
 									continue
 								}
 								idx++
 								if idx%sn != si {
 									continue
 								}
-								sc := &TwinScript{Cfg: SessCfg{V: v, SeedA: 1700, SeedB: 1801, KeyA: 0, KeyB: 3}, Pol: pol, Ops: ops, At: at, R: SOp{W: rcv, I: src, X: x, L: l, F: l % 5}}
+								rs := SOp{W: rcv, I: src, X: x, L: l, F: l % 5}
+								if x == 7 {
+									rs.L, rs.F = l/6, l%6
+								}
+								sc := &TwinScript{Cfg: SessCfg{V: v, SeedA: 1700, SeedB: 1801, KeyA: 0, KeyB: 3}, Pol: pol, Ops: ops, At: at, R: rs}
 								sim.Judge(t, "C06akestates", sc)
 							}
 						}
